@@ -560,7 +560,8 @@ def _tnag_one_state(cx, rng, tn, geo, dtype, how, rep):
                     return cmp_matrix(r, dnx.rdm(w, nrm), 1.0 if nrm else dnx.norm2, gtol, "partial_trace_cluster",
                                       trace=1.0 if nrm else None)
 
-                cx.check("partial_trace_cluster with a cluster spanning the network == dense partial trace", pm, t_ptc)
+                if kind != "peps3d":  # (PEPS3D overrides partial_trace_cluster with a boundary-contraction signature: 3D driver)
+                    cx.check("partial_trace_cluster with a cluster spanning the network == dense partial trace", pm, t_ptc)
     for (gname, tnx, gauges, dnx), nrm in itertools.product(gauge_sets, (True, False)):
         terms = {w: ops[w] for w in wheres}
         gtol = tol * (1 if gauges is None else 30)
